@@ -23,6 +23,7 @@ bool available() { return !g_docs.empty(); }
 
 struct Val {
   std::string exc; std::vector<double> v; std::string text; bool is_text = false;
+  int nu = 0, no = 0;              // sizes the indices were resolved against (taken from the reference)
   std::string str() const
   {
     if (!exc.empty()) return "throw:" + exc;
@@ -61,11 +62,31 @@ template <class F> static Val guarded(F f)
 // ---- building a network the way gama-local's main() does ------------------------
 struct Built { std::unique_ptr<LocalNetwork> net; bool adjustable = false; std::string why; };
 
+// "passive:k": the k-th observation (in document order, modulo) is switched off and the network told so.  In a used
+// object this happens after adjustments; the reference gets it before its first adjustment.  Such a step is only
+// generated while no coordinate-changing step has happened, so both orders describe the same input.
+static void set_passive(LocalNetwork* n, long long k)
+{
+  std::vector<GNU_gama::local::Observation*> all;
+  for (auto* cl : n->OD.clusters) for (auto* ob : cl->observation_list) all.push_back(ob);
+  if (all.empty()) return;
+  all[(size_t)(k % (long long)all.size())]->set_passive();
+  n->update_observations();
+}
+
+// what gama-local does first with a network whose observations changed: GeneralParameters() -> null_space(), which
+// also removes points that have become singular.  The reference does it when it is built.
+static void settle(LocalNetwork* n)
+{
+  try { n->null_space(); } catch (const GNU_gama::Exception::base&) {} catch (const GNU_gama::local::Exception&) {}
+}
+
 static void apply_change(LocalNetwork* n, const std::string& c)
 {
   if (c == "refine") n->refine_adjustment();
   else if (c == "refcoord") { n->solve(); n->refine_approx_coordinates(); }
   else if (c.compare(0, 4, "alg:") == 0) n->set_algorithm(c.substr(4));
+  else if (c.compare(0, 8, "passive:") == 0) { set_passive(n, atoll(c.c_str() + 8)); settle(n); }
   else if (c == "upd:0") n->update_points();
   else if (c == "upd:1") n->update_observations();
   else if (c == "upd:2") n->update_residuals();
@@ -78,9 +99,11 @@ static Built build(const gnet::Doc& d, const std::string& alg0, const std::vecto
   Val r = guarded([&](Val&) {
     gnet::parse_gkf(*b.net, d.bytes);
     b.net->set_gons();
-    gnet::Prep p = gnet::prepare_like_main(b.net.get(), alg0);
+    gnet::Prep p = gnet::prepare_like_main(b.net.get(), alg0, [&](LocalNetwork* n) {
+      for (auto& c : changes) if (c.compare(0, 8, "passive:") == 0) set_passive(n, atoll(c.c_str() + 8));
+    });
     b.adjustable = p.adjustable; b.why = p.why;
-    if (b.adjustable) for (auto& c : changes) apply_change(b.net.get(), c);
+    if (b.adjustable) for (auto& c : changes) if (c.compare(0, 8, "passive:") != 0) apply_change(b.net.get(), c);
   });
   if (!r.exc.empty()) { b.adjustable = false; b.why = "exception " + r.exc; }
   return b;
@@ -94,12 +117,16 @@ static const char* QK[] = {
   "doc:xml", "doc:general", "doc:unknowns", "doc:ellipses", "doc:adjobs", "doc:residuals", "doc:fixed", "doc:html", "doc:octave", "doc:svg", "doc:export"};
 static const int NQK = sizeof QK / sizeof QK[0];
 
-static Val ask(LocalNetwork* n, const std::string& k, long long a, long long b)
+static Val ask(LocalNetwork* n, const std::string& k, long long a, long long b, int given_nu = 0, int given_no = 0)
 {
   return guarded([&](Val& r) {
     // queries that read the solver directly carry the precondition "adjusted": state it the same way for used and fresh
     n->solve();
-    int nu = std::max(n->unknowns_count(), 1), no = std::max(n->observations_count(), 1);
+    // The used object is NOT asked for its counts first: unknowns_count()/observations_count() run project_equations(),
+    // which would repair a stale adjustment flag just before the query under test.  Indices are resolved against
+    // the sizes of the reference.
+    int nu = given_nu ? given_nu : std::max(n->unknowns_count(), 1), no = given_no ? given_no : std::max(n->observations_count(), 1);
+    r.nu = nu; r.no = no;
     int i = 1 + (int)(a % nu), j = 1 + (int)(b % nu), oi = 1 + (int)(a % no), oj = 1 + (int)(b % no);
     if (k == "solve") { const auto& x = n->solve(); for (int q = 1; q <= x.dim(); q++) r.v.push_back(x(q)); }
     else if (k == "residuals") { const auto& x = n->residuals(); for (int q = 1; q <= x.dim(); q++) r.v.push_back(x(q)); }
@@ -177,8 +204,10 @@ Verdict execute(const Plan& plan, EventLog& log, Stats& st)
       log.line("%d o%lld update(%d)", n, s.arg(0) % nobj, w); st.add("ops.update"); st.nontrivial = true;
       st.state("hist", fmt("net/update%d/asked%d", w, std::min(O.asked, 2)));
     } else if (op == "chg") {
-      int w = (int)(s.arg(1) % 5);
-      std::string c = w == 0 ? "refine" : w == 1 ? "refcoord" : w == 2 ? "alg:" + (O.changes.empty() ? O.alg0 : O.alg0) : w == 3 ? std::string("alg:") + ALGS[s.arg(2) % 4] : "alg:" + O.alg0;
+      int w = (int)(s.arg(1) % 6);
+      bool moved = false; for (auto& c0 : O.changes) if (c0 == "refine" || c0 == "refcoord") moved = true;
+      if (w == 5 && moved) { n++; continue; }
+      std::string c = w == 5 ? fmt("passive:%lld", s.arg(2) % 1000) : w == 0 ? "refine" : w == 1 ? "refcoord" : w == 2 ? "alg:" + (O.changes.empty() ? O.alg0 : O.alg0) : w == 3 ? std::string("alg:") + ALGS[s.arg(2) % 4] : "alg:" + O.alg0;
       Val r = guarded([&](Val&) { apply_change(net, c); });
       O.changes.push_back(c);
       log.line("%d o%lld change %s %s", n, s.arg(0) % nobj, c.c_str(), r.exc.c_str()); st.add("ops.change"); st.nontrivial = true;
@@ -187,7 +216,6 @@ Verdict execute(const Plan& plan, EventLog& log, Stats& st)
     } else if (op == "q") {
       std::string k = QK[s.arg(1) % NQK];
       long long qa = s.arg(2) % 64, qb = s.arg(3) % 64;
-      Val used = ask(net, k, qa, qb);
       // reference: a fresh network from the same document, the same state-changing steps, asked only this
       std::string key = fmt("%d/%s/", O.doc, O.alg0.c_str()); for (auto& c : O.changes) key += c + ";"; key += k + fmt("/%lld/%lld", qa, qb);
       auto it = memo.find(key);
@@ -198,6 +226,7 @@ Verdict execute(const Plan& plan, EventLog& log, Stats& st)
         it = memo.emplace(key, ref).first;
       }
       const Val& ref = it->second;
+      Val used = ask(net, k, qa, qb, ref.nu, ref.no);
       if (O.asked > 0) st.nontrivial = true;
       O.asked++; st.add("queries");
       if (!used.exc.empty()) st.add("fault.exception_survived");
@@ -240,7 +269,7 @@ void generate(Plan& p, Rng& g, const std::string&)
     else {
       int r = (int)g.below(10);
       if (r < 4) { s.op = "upd"; s.a.push_back((long long)g.below(4)); }
-      else if (r < 7) { s.op = "chg"; s.a.push_back((long long)g.below(5)); s.a.push_back((long long)g.below(4)); }
+      else if (r < 7) { s.op = "chg"; long long w = (long long)g.below(7); if (w == 6) w = 5; s.a.push_back(w); s.a.push_back((long long)g.below(w == 5 ? 1000 : 4)); }
       else query(g.chance(1, 2) ? F0[g.below(9)] : F1[g.below(12)]);
     }
     p.steps.push_back(s);
